@@ -5,10 +5,14 @@ oracle: random sequences (<= 10) of read-only operations on generated scenarios 
         container types) is compared with the one taken before the sequence, the exported XML and protobuf
         bytes (date aside) with the first export, and the answer of a lanelet lookup with the first answer.  The snapshot code is the harness's own (reads instance
         dictionaries and slots only), so whatever changes is attributed to the operation that ran last.
-corr:   Model/ReadOnly.v run by vm_compute on the same sequences predicts, after every step, the attribute-name
+corr:   the code version ([code] of Model/ReadOnly.v: heading derived on a copy? goal-lanelet table tested before
+        indexing?) is read off the syntax trees of the two anchored functions on every run (fail-closed: anything
+        but the repaired version breaks the obligation the theorems rest on);
+        Model/ReadOnly.v run by vm_compute on the same sequences predicts, after every step, the attribute-name
         lists of all trajectory states, every goal-lanelet table (container kind + items), and which caches /
         lazily filled fields exist with which contents (occupancy sets, lanelet distances, spatial index, memoised
         light-cycle times); compared inside Coq with what is read off the real objects (Corr/C18.v)."""
+import ast
 import atexit
 import contextlib
 import copy
@@ -356,7 +360,7 @@ def _own_state(sc, pps, sel):
     return _pick(cands, sel)
 
 
-def prims(sc, pps, op, workdir, other):
+def prims(sc, pps, op, workdir, other, other_case=None):
     """the primitive calls of a harness operation: list of (model op term | callable(before, after) | None, thunk)"""
     name = op[0]
     net = sc.lanelet_network
@@ -439,6 +443,9 @@ def prims(sc, pps, op, workdir, other):
             traj = scen.rand_trajectory(rng, rng.randint(0, 5), rng.randint(1, 5), rng.choice([KSState, scen.STState]))
         out.append(("GoalReached", lambda: pp.goal_reached(traj)))
     elif name == "eq":
+        if not other:
+            other.extend(make(other_case, workdir))
+
         def q():
             sc == other[0], pps == other[1], sc != other[0], sc == sc, pps == pps
             for a, b in zip(sc.obstacles, other[0].obstacles):
@@ -508,10 +515,10 @@ def prims(sc, pps, op, workdir, other):
 PREDICTED = ("(OccAt", "(OccsAt", "(OccSet", "(GetObstacles", "FindPos", "FindShape", "(LightAt")
 
 
-def apply_op(sc, pps, op, workdir, other, want_model=False):
+def apply_op(sc, pps, op, workdir, other, want_model=False, other_case=None):
     """runs the primitive calls (each guarded); returns (model op terms, raised-by-a-predicted-op, exception names)"""
     terms, raised, excs = [], False, []
-    for term, thunk in prims(sc, pps, op, workdir, other):
+    for term, thunk in prims(sc, pps, op, workdir, other, other_case):
         before = m_state(sc, pps) if want_model and callable(term) else None
         r = ("ok", None)
         if thunk is not None:
@@ -544,7 +551,7 @@ def classify(path):
 def run_case(case, workdir, want_model=False):
     """returns (None | (signature, what), trace); trace = (initial model state, [(op terms, raised, model state)])"""
     sc, pps = make(case, workdir)
-    other = make(case, workdir)   # an equal scenario built independently (a copy would itself be an operation)
+    other = []   # an equal scenario built independently, when an == needs one (a copy would itself be an operation)
     src = case["source"]
     s0 = [snapshot(sc), snapshot(pps)]
     m0 = m_state(sc, pps) if want_model else None
@@ -589,7 +596,7 @@ def run_case(case, workdir, want_model=False):
     if want_model:   # the first exports are part of the history the model replays
         steps.append(([], False, m_state(sc, pps)))
     for i, op in enumerate(case["ops"]):
-        terms, raised, excs = apply_op(sc, pps, op, workdir, other, want_model)
+        terms, raised, excs = apply_op(sc, pps, op, workdir, other, want_model, case)
         r = changed(op[0], i, op, excs[0] if excs else None)
         if not r and probe() != p0:
             r = (f"{op[0]}:{src}:lookup-answer",
@@ -698,6 +705,58 @@ def shrink(case):
     return dict(case, ops=ops)
 
 
+# ------------------------------------------------------------------------------------------ code version (source)
+def _mentions(node, name):
+    return any((isinstance(n, ast.Attribute) and n.attr == name) or (isinstance(n, ast.Name) and n.id == name)
+               for n in ast.walk(node))
+
+
+def _find_def(tree, cls, fn):
+    for c in ast.walk(tree):
+        if isinstance(c, ast.ClassDef) and c.name == cls:
+            for f in c.body:
+                if isinstance(f, ast.FunctionDef) and f.name == fn:
+                    return f
+    return None
+
+
+def source_code_flags(repo):
+    """(occ_on_copy, pb_checks_key) of Model/ReadOnly.v's [code], read off the syntax trees; None = not recognised"""
+    occ = pb = None
+    f = _find_def(ast.parse(open(os.path.join(repo, "commonroad/prediction/prediction.py")).read()),
+                  "TrajectoryPrediction", "_create_occupancy_set")
+    if f is not None:
+        for node in ast.walk(f):
+            if not isinstance(node, ast.If):
+                continue
+            for k, st in enumerate(node.body):
+                tg = st.targets[0] if isinstance(st, ast.Assign) and len(st.targets) == 1 else None
+                if isinstance(tg, ast.Attribute) and tg.attr == "orientation" and isinstance(tg.value, ast.Name):
+                    var = tg.value.id
+                    rebound = any(isinstance(b, ast.Assign) and len(b.targets) == 1
+                                  and isinstance(b.targets[0], ast.Name) and b.targets[0].id == var
+                                  and isinstance(b.value, ast.Call) and isinstance(b.value.func, ast.Attribute)
+                                  and b.value.func.attr in ("copy", "deepcopy")
+                                  and isinstance(b.value.func.value, ast.Name) and b.value.func.value.id == "copy"
+                                  for b in node.body[:k])
+                    occ = rebound if occ is None else (occ and rebound)
+    f = _find_def(ast.parse(open(os.path.join(repo, "commonroad/common/writer/file_writer_protobuf.py")).read()),
+                  "PlanningProblemMessage", "create_message")
+    if f is not None:
+        subs = [n for n in ast.walk(f) if isinstance(n, ast.Subscript) and _mentions(n.value, "lanelets_of_goal_position")]
+        guarded = []
+        for node in ast.walk(f):
+            if isinstance(node, ast.If):
+                has_in = any(isinstance(c, ast.Compare) and any(isinstance(o, ast.In) for o in c.ops)
+                             and any(_mentions(x, "lanelets_of_goal_position") for x in c.comparators)
+                             for c in ast.walk(node.test))
+                if has_in:
+                    guarded += [n for b in node.body for n in ast.walk(b) if isinstance(n, ast.Subscript)]
+        if subs:
+            pb = all(any(n is g for g in guarded) for n in subs)
+    return occ, pb
+
+
 # ------------------------------------------------------------------------------------------ correspondence
 def q_case(trace):
     m0, steps = trace
@@ -709,7 +768,10 @@ def corr(ctx, traces, cases):
     imports = ("From Coq Require Import ZArith List Bool NArith PArith.\nImport ListNotations.\n"
                "From CR Require Import Model.ReadOnly Corr.C18.\nOpen Scope Z_scope.\n")
     terms = [q_case(t) for t in traces]
-    bad, errors = ctx.coq_bad_indices("corr", imports, "", terms, "check", shard=ctx.n(25, 60))
+    occ, pb = ctx.coverage["source_code_version"]
+    defs = (f"Definition src_code : code := {{| occ_on_copy := {qb(occ is not False)}; "
+            f"pb_checks_key := {qb(pb is not False)} |}}.\n")
+    bad, errors = ctx.coq_bad_indices("corr", imports, defs, terms, "(check_c src_code)", shard=ctx.n(25, 60))
     ctx.coverage["correspondence_sequences"] = len(terms)
     ctx.coverage["correspondence_steps"] = sum(len(t[1]) for t in traces)
     for e in errors:
@@ -736,7 +798,19 @@ def run(ctx):
     ctx.build_props()
     if ctx.tier == "thorough":
         ctx.coqchk()
-    n = ctx.n(260, 4000)
+    from vlib.core import REPO
+    flags = source_code_flags(REPO)
+    ctx.coverage["source_code_version"] = list(flags)
+    if flags != (True, True):
+        # the theorems are about [step repaired]; the source is (or looks like) another version of the code
+        what = [nm for nm, v in zip(("_create_occupancy_set derives the heading on a copy of the state",
+                                     "the protobuf writer tests `i in lanelets_of_goal_position` before indexing"),
+                                    flags) if v is not True]
+        ctx.proof_breaks.append({"theorem": "C18_step_observe (about the repaired code)", "where": "; ".join(what),
+                                 "log": f"code version read off the source: occ_on_copy={flags[0]} "
+                                        f"pb_checks_key={flags[1]} (None = construct not recognised)"})
+        ctx.log(f"proof_broken: the source is not the code version the theorems are about: {what}")
+    n = ctx.n(260, 3000)
     wd = workdir()
     cases, traces = [], []
     dist = {}
